@@ -11,7 +11,7 @@ UNUSABLE_VALUES = ["x", '"s"', "foo(1)", "x.y", "true", "1.5", "id", '"7"', "som
                    # expressions that merely begin with digits
                    "40 + 2", "3.max(n)", "7 as u64", "2 * n", "10 - 1", "1 << 4", "5 /* five */ + 1", "12 .min(x)"]
 # safety assertions only: out-of-range / non-decimal literals, and values outside the "simple value" grammar (DESIGN 4.3)
-AMBIGUOUS_VALUES = ["4294967296", "0x10", "10u32", "1_0", "99999999999", "0b11", "1e3", "-1", "&n"]
+AMBIGUOUS_VALUES = ["4294967296", "0x10", "10u32", "1_0", "99999999999", "0b11", "1e3", "-1", "&n", "4294967301", "8589934597", "18446744073709551621"]
 
 
 def make_cases(tier, seed):
@@ -112,6 +112,13 @@ def work(job):
                 clause = "unusable-ref-not-classified-unusable"
             if kind == "unusable" and not clause and unus:
                 res["counters"]["unusable_stdout_corroborated"] = res["counters"].get("unusable_stdout_corroborated", 0) + 1
+            if kind == "unusable" and not clause and not unus:
+                clause = "unusable-ref-not-reported-by-check"        # "is reported as unusable rather than missing"
+            if kind == "ambiguous" and not clause and hook and kv_ref[1].isdigit():
+                # a decimal literal beyond u32 cannot be anybody's reference number: whatever the tool makes of it, not another number
+                odd = [e for e in entries if e["reference"] is not None and e["reference"] != int(kv_ref[1])]
+                if odd:
+                    clause = "out-of-range-literal-read-as-%d" % odd[0]["reference"]
         if clause:
             f = st.feat
             sig = "C13.%s|val=%s|lay=%s|target=%s|others=%d" % (
@@ -151,7 +158,12 @@ def main(tier):
     hfill = [c for c in cases if c[1] != "none" and not is_top(c)][:len(high) * 2]
     low = [c for c in cases if not is_top(c)]
     for n, i in enumerate(range(0, len(low), PER_FILE)):
-        jobs.append((built, "%d-%d" % (ck.seed, n), low[i:i + PER_FILE], "\r\n" if n % 4 == 3 else "\n"))
+        chunk = low[i:i + PER_FILE]
+        if n % 5 == 2:
+            # a file in which no statement is waiting for a reference (the state of every file after an edit run): what is
+            # reported about its unusable references must not depend on the presence of missing ones
+            chunk = [c for c in chunk if c[1] != "none"]
+        jobs.append((built, "%d-%d" % (ck.seed, n), chunk, "\r\n" if n % 4 == 3 else "\n"))
     hi = high + hfill
     for n, i in enumerate(range(0, len(hi), PER_FILE)):
         jobs.append((built, "%d-high%d" % (ck.seed, n), hi[i:i + PER_FILE], "\n"))
